@@ -597,4 +597,53 @@ theorem inj_of_nodup_map {α β : Type} (k : α → β) (l : List α) (h : (l.ma
       · exact absurd (List.mem_map.2 ⟨x, hx', hk⟩) hnd.1
       · exact ih hnd.2 hx' hy'
 
+/-! ## histories of operations -/
+
+theorem liveWF_filter {live : Live} (h : LiveWF live) (p : LiveFile → Bool) : LiveWF (live.filter p) :=
+  List.Nodup.sublist (List.Sublist.map _ List.filter_sublist) h
+
+theorem liveWF_writeFile {l : Live} (h : LiveWF l) (g : LiveFile) : LiveWF (writeFile l g) := by
+  unfold writeFile LiveWF
+  rw [List.map_append, List.nodup_append]
+  refine ⟨liveWF_filter h _, by simp, ?_⟩
+  intro a ha b hb
+  obtain ⟨f, hf, rfl⟩ := List.mem_map.1 ha
+  have hne := of_decide_eq_true (List.mem_filter.1 hf).2
+  simp only [List.map_cons, List.map_nil, List.mem_cons, List.not_mem_nil, or_false] at hb
+  subst hb
+  intro heq
+  exact hne ⟨congrArg Prod.fst heq, congrArg Prod.snd heq⟩
+
+theorem liveWF_mergeStep {l : Live} (h : LiveWF l) (e : IEntry) : LiveWF (mergeStep l e) := by
+  unfold mergeStep
+  simp only
+  split
+  · exact liveWF_writeFile h ⟨e.dir, e.base, e.content⟩
+  · exact liveWF_filter h _
+
+theorem liveWF_mergeFs (cset : ICSet) {live : Live} (h : LiveWF live) : LiveWF (mergeFs live cset) := by
+  induction cset generalizing live with
+  | nil => exact h
+  | cons e es ih => rw [mergeFs_cons]; exact ih (liveWF_mergeStep h e)
+
+theorem liveWF_applyOp {live : Live} (h : LiveWF live) (op : Op) : LiveWF (applyOp live op) := by
+  cases op with
+  | edit files =>
+    show LiveWF (files.foldl writeFile live)
+    induction files generalizing live with
+    | nil => exact h
+    | cons g gs ih => exact ih (liveWF_writeFile h g)
+  | install s pkg => exact liveWF_mergeFs _ h
+  | uninstall s recorded => exact liveWF_filter h _
+
+theorem liveWF_runOps (ops : List Op) {live : Live} (h : LiveWF live) : LiveWF (runOps live ops) := by
+  induction ops generalizing live with
+  | nil => exact h
+  | cons op ops ih => exact ih (liveWF_applyOp h op)
+
+theorem runOps_snoc (live : Live) (ops : List Op) (op : Op) : runOps live (ops ++ [op]) = applyOp (runOps live ops) op := by
+  unfold runOps
+  rw [List.foldl_append]
+  rfl
+
 end Pkgcore.C21
